@@ -381,12 +381,18 @@ fn build_send<G: Glue>(storage: &dyn Storage, s: &Send) -> StdResult<SubMsg<G::C
                         Built::Wasm(w) => w.into(),
                         Built::Cosmos(c) => c,
                     };
+                    // (the decoy trigger comes from the upper part of `recv`)
                     let sm = SubMsg {
                         id: 0xdead_beef,
                         msg,
                         payload: Binary::from(b"decoy".to_vec()),
                         gas_limit: s.gas_limit,
-                        reply_on: ReplyOn::Never,
+                        reply_on: match (recv / 3) % 4 {
+                            0 => ReplyOn::Never,
+                            1 => ReplyOn::Success,
+                            2 => ReplyOn::Error,
+                            _ => ReplyOn::Always,
+                        },
                     };
                     (j(&sm.msg), G::wrap_submsg(sm, name, payload.as_slice())?)
                 }
